@@ -102,6 +102,9 @@ def streams(tier, rng, P, only=None, cases=None):
         n = 6000 if big else 800
         for i in range(n):
             clean, dirty, exp = gen_err_case(rng)
+            if i % 6 == 5 and not re.search(r"\n[\s|]*(//[^\n]*\n|/\*.*?\*/)*[\s|]*\^", clean, re.S):      # (a length continued on the next line with `^` needs a bare line feed)
+                # the same text with Windows line ends: a line is still counted once
+                clean = clean.replace("\n", "\r\n"); dirty = dirty.replace("\n", "\r\n")
             cs.append(dict(req="compile2 %s %s" % (hx(dirty), hx(clean)), src=dirty, show=dirty[:300], exp=exp, key="e%d" % i))
         for j, (d, c_, exp) in enumerate([("c !d e", "c d e", [(0, "!")]), ("\n\nc\n!", "\n\nc\n", [(3, "!")]), ("c\n\n\n!", "c\n\n\n", [(3, "!")]), ("c\n\n\nZZZ d", "c\n\n\n d", [(3, "ZZZ")])]):
             cs.append(dict(req="compile2 %s %s" % (hx(d), hx(c_)), src=d, show=repr(d), exp=exp, key="fixed%d" % j))
